@@ -969,6 +969,7 @@ func (ex *Exec) execBlock(fr *Frame, st *State, b *ssa.BasicBlock, rets *[]retRe
 			if inv := ex.chanInv(st, x.X.Type(), ex.val(fr, x.X)); inv != nil {
 				ex.check("chaninv", "send", x.Pos(), st, inv)
 			}
+			ex.atSend(fr, st, x.X.Type(), ex.val(fr, x.X), x.Pos())
 		case *ssa.Select:
 			fr.regs[x] = ex.execSelect(fr, st, x)
 		case *ssa.Panic:
@@ -1666,6 +1667,22 @@ func (ex *Exec) chanInv(st *State, t types.Type, v Value) *Term {
 	return env.evalBool(m.Body)
 }
 
+// atSend checks the at_send clauses of the function under verification for a value sent on a
+// channel (x = the value; the function's parameters and old() are available).
+func (ex *Exec) atSend(fr *Frame, st *State, t types.Type, v Value, pos token.Pos) {
+	nt, ok := t.(*types.Named)
+	if !ok || ex.contract == nil || fr.fn != ex.fn {
+		return
+	}
+	for i, rq := range ex.contract.AtSend[nt.Obj().Name()] {
+		env := ex.specEnv(fr, st, ex.entry, false)
+		env.useLocals = false
+		env.vars["x"] = v
+		g := env.evalBool(rq.Expr)
+		ex.addOblSk("atsend", fmt.Sprintf("%s.%d", nt.Obj().Name(), i+1), pos, st, g, env.skolems, rq.Src)
+	}
+}
+
 func (ex *Exec) execSelect(fr *Frame, st *State, x *ssa.Select) Value {
 	ex.note("select in %s: nondeterministic choice, received values fresh", fr.fn)
 	tt := x.Type().(*types.Tuple)
@@ -1684,6 +1701,7 @@ func (ex *Exec) execSelect(fr *Frame, st *State, x *ssa.Select) Value {
 			if inv := ex.chanInv(st, s.Send.Type(), ex.val(fr, s.Send)); inv != nil {
 				ex.check("chaninv", "send", x.Pos(), st, inv)
 			}
+			ex.atSend(fr, st, s.Send.Type(), ex.val(fr, s.Send), x.Pos())
 		}
 	}
 	for i := 1; i < tt.Len(); i++ {
